@@ -84,6 +84,9 @@ require (
 
 replace github.com/kubewharf/kubebrain => /repo
 
+// klog v2.4.0 with one change: Fatal calls a hook instead of os.Exit when the simulator sets one
+replace k8s.io/klog/v2 => ./third_party/klog
+
 replace (
 	github.com/googleapis/gnostic => github.com/googleapis/gnostic v0.3.1
 	google.golang.org/grpc => google.golang.org/grpc v1.38.0
